@@ -6,7 +6,7 @@
 // calls pop(); the write callback is the closure of sendLoop (copied below: net.Buffers.WriteTo on a
 // connection, return len(bufs)-1) over a scripted connection. synctest.Wait() after every single push and
 // every operation, so each step is one critical section and the fake clock makes the swap timer exact.
-// sendLoop itself (reconnects, real TCP) runs in the real-time test TestVerifEgressRT.
+// sendLoop itself (reconnects, deadlines, real TCP) is not run here: it is outside the model (see checks/C31.json).
 package balancer
 
 import (
@@ -205,7 +205,7 @@ func newVbWorld(h *vbHist) *vbWorld {
 	return w
 }
 
-// the closure sendLoop passes to pop (copied from egress.go; the original runs in TestVerifEgressRT)
+// the closure sendLoop passes to pop (copied from egress.go)
 func (w *vbWorld) callback(i int) func(pkts [][]byte) (int, error) {
 	v := w.snd[i]
 	return func(pkts [][]byte) (int, error) {
@@ -288,6 +288,10 @@ func (w *vbWorld) step(op vbOp) {
 		text = "P" + vbB(op.a)
 		term = "HPop " + vu.B(op.a)
 		v := w.snd[i]
+		if v.state.Load() != 0 {
+			h.kinds["op_not_applicable"] = true // scripted op on an implementation that went elsewhere: the model will disagree
+			break
+		}
 		cb := w.callback(i)
 		w.waitFrom[i] = time.Now()
 		v.cmd <- func() {
@@ -301,10 +305,19 @@ func (w *vbWorld) step(op vbOp) {
 		i := w.idx(op.a)
 		text = "K" + vbB(op.a)
 		term = "HOk " + vu.B(op.a)
+		if w.snd[i].state.Load() != 2 {
+			h.kinds["op_not_applicable"] = true
+			break
+		}
 		w.waitFrom[i] = time.Now()
 		w.snd[i].decide <- vbDecision{failAt: -1}
 	case 'E':
 		i := w.idx(op.a)
+		if w.snd[i].state.Load() != 2 {
+			h.kinds["op_not_applicable"] = true
+			text, term = "E?", fmt.Sprintf("HErr %s 0", vu.B(op.a))
+			break
+		}
 		w.snd[i].decide <- vbDecision{failAt: int(op.n), partial: int(op.l)}
 		synctest.Wait()
 		text = fmt.Sprintf("E%s@%d+%d", vbB(op.a), op.n, op.l)
@@ -636,7 +649,7 @@ func TestVerifBalancer(t *testing.T) {
 						return &vbOp{kind: 'K', a: a}
 					}
 				case x < 72:
-					if st == 2 {
+					if st == 2 && len(w.snd[i].batch) > 0 {
 						m := len(w.snd[i].batch)
 						at := r.Intn(m)
 						if r.Chance(30) {
